@@ -98,26 +98,35 @@ def rule_R2(ck):
     calc = [struct.calcsize("<" + "".join(f for f, _ in fields[:i])) for i in range(len(fields) + 1)]
     if offs != calc:
         raise Unknown(f"ref/riff.txt offsets {offs} do not match the rule's field table {calc}")
-    parts = val[2:] if is_sym(val) and val[:2] == ("op", "cat") else (val,)
-    head = parts[0]
-    if not (is_sym(head) and head[:2] == ("op", "pack")):
-        ck.violation(where, f"WAV file does not start with a packed RIFF header: {val!r}", construct="RIFF header")
+    parts = list(val[2:]) if is_sym(val) and val[:2] == ("op", "cat") else [val]
+    want = b""
+    for f, v in fields:
+        want = sym.cat(want, sym.pack("<" + f, v))
+    want_parts = list(want[2:]) if is_sym(want) and want[:2] == ("op", "cat") else [want]
+    # compare field by field: walk both part lists in parallel by byte offset
+    def layout(ps):
+        out, off = [], 0
+        for p in ps:
+            n = sym.length(p)
+            out.append((off, n, p))
+            off = sym.add(off, n)
+        return out
+    got_l, want_l = layout(parts), layout(want_parts)
+    total = struct.calcsize("<" + "".join(f for f, _ in fields))
+    hdr = [x for x in got_l if not is_sym(x[0]) and x[0] < total]
+    if [x[:2] for x in hdr] != [x[:2] for x in want_l]:
+        ck.violation(where, f"the RIFF header is laid out as {[(o, n) for o, n, _ in hdr]} (offset, size), the canonical 44-byte header is {[(o, n) for o, n, _ in want_l]}: {val!r}", construct="RIFF header format",
+                     expected=str([(o, n) for o, n, _ in want_l]), found=str([(o, n) for o, n, _ in hdr]))
         return
-    fmt = head[2]
-    args = head[3:]
-    if struct.calcsize(fmt) != 44 or not fmt.startswith("<"):
-        ck.violation(where, f"RIFF header format {fmt!r} is {struct.calcsize(fmt)} bytes / not little-endian; the canonical header is 44 bytes", construct="RIFF header format", expected="<4sI4s4sIHHIIHH4sI", found=fmt)
-        return
-    want_fmt = "<" + "".join(f for f, _ in fields)
-    if fmt != want_fmt:
-        ck.violation(where, f"RIFF header format is {fmt!r}, expected {want_fmt!r}", construct="RIFF header format", expected=want_fmt, found=fmt)
-        return
-    for name, (f, want), got in zip(names, fields, args):
-        ck.instance(("riff", name), {"field": name, "value": repr(got)}, fn=where)
-        if got != want:
-            ck.violation(where, f"RIFF field {name} is {got!r}, expected {want!r}", construct=f"RIFF {name}", expected=repr(want), found=repr(got))
-    if list(parts[1:]) != [DATA]:
-        ck.violation(where, f"RIFF header is followed by {[repr(p) for p in parts[1:]]}, expected the sample data", construct="RIFF data")
+    # name the fields through the offsets of ref/riff.txt
+    for (o, n, g), (_, _, w) in zip(hdr, want_l):
+        names_here = [nm for nm, off in zip(names, calc) if o <= off < o + (n if not is_sym(n) else 0)]
+        ck.instance(("riff", o), {"offset": o, "fields": names_here, "value": repr(g)[:80]}, fn=where)
+        if g != w:
+            ck.violation(where, f"RIFF header bytes at offset {o} ({', '.join(names_here)}) are {g!r}, expected {w!r}", construct=f"RIFF {names_here[0] if names_here else o}", expected=repr(w), found=repr(g))
+    rest = [x[2] for x in got_l if is_sym(x[0]) or x[0] >= total]
+    if rest != [DATA]:
+        ck.violation(where, f"RIFF header is followed by {[repr(p) for p in rest]}, expected the sample data", construct="RIFF data")
 
 
 def fold_env(I, name):
@@ -537,7 +546,7 @@ def rule_R8(ck):
 
 def run(ck):
     ck.run_rule("C13.R1", "bin/raw layouts; format registry and its users", 8, rule_R1)
-    ck.run_rule("C13.R2", "RIFF header slots", 13, rule_R2)
+    ck.run_rule("C13.R2", "RIFF header slots", 6, rule_R2)
     ck.run_rule("C13.R3", "tape stream segment order (normal and turbo)", 13, rule_R3)
     ck.run_rule("C13.R4", "bit order of encode_data_bits", 9, rule_R4)
     ck.run_rule("C13.R5", "pulse tables, levels, rates", 13, rule_R5)
